@@ -1,10 +1,18 @@
 package main
 
-// A7 — value origin with a field-based heap. Forward propagation of one origin tag over SSA
-// def-use within a set of functions: through phis, conversions, extracts, slices, element loads
-// of containers that hold a tagged value, struct fields (field-based, flow-insensitive), locals,
-// static calls (argument → parameter, returned value → call result) and closures. Coarse, and
-// errs toward reporting.
+// A7 — value origin with a field-based heap. Forward propagation over SSA def-use within a set
+// of functions of two related facts about a value v:
+//
+//	Is[v]    v is (or shares storage with) an object produced by a source: reached through
+//	         phis, conversions, extracts, reslicing, locals, struct fields (field-based,
+//	         flow-insensitive), static calls (argument → parameter, returned value → result),
+//	         closures, and element loads of containers that Hold it;
+//	Holds[v] v is a container (slice, map, array cell, struct field...) one of whose elements Is a
+//	         tagged object.
+//
+// Mutations are reported only on Is-values: inserting into / deleting from / storing through /
+// appending in place to the tagged object itself. Storing a tagged object *into* another
+// container only makes that container Hold it. Coarse, and errs toward reporting.
 
 import (
 	"go/token"
@@ -14,10 +22,11 @@ import (
 )
 
 type Taint struct {
-	Vals   map[ssa.Value]bool
-	Fields map[*types.Var]bool
-	Why    map[ssa.Value]string
-	scope  map[*ssa.Function]bool
+	Is, Holds             map[ssa.Value]bool
+	IsFields, HoldsFields map[*types.Var]bool
+	Why                   map[ssa.Value]string
+	scope                 map[*ssa.Function]bool
+	cellHolds             map[ssa.Value]bool
 }
 
 func refLike(t types.Type, depth int) bool {
@@ -45,108 +54,116 @@ func refLike(t types.Type, depth int) bool {
 	return false
 }
 
-// TaintFrom computes the set of values that may be (or hold) a value produced by a source.
+// TaintFrom computes the origin facts for the given sources.
 func (w *World) TaintFrom(scope []*ssa.Function, isSource func(ssa.Value) bool) *Taint {
-	t := &Taint{Vals: map[ssa.Value]bool{}, Fields: map[*types.Var]bool{}, Why: map[ssa.Value]string{}, scope: map[*ssa.Function]bool{}}
+	t := &Taint{Is: map[ssa.Value]bool{}, Holds: map[ssa.Value]bool{}, IsFields: map[*types.Var]bool{}, HoldsFields: map[*types.Var]bool{},
+		Why: map[ssa.Value]string{}, scope: map[*ssa.Function]bool{}, cellHolds: map[ssa.Value]bool{}}
 	for _, f := range scope {
 		t.scope[f] = true
 	}
 	changed := true
-	mark := func(v ssa.Value, why string) {
-		if v == nil || t.Vals[v] {
+	is := func(v ssa.Value, why string) {
+		if v == nil || t.Is[v] || !refLike(v.Type(), 0) {
 			return
 		}
-		if !refLike(v.Type(), 0) {
-			return
+		t.Is[v] = true
+		if _, ok := t.Why[v]; !ok {
+			t.Why[v] = why
 		}
-		t.Vals[v] = true
-		t.Why[v] = why
 		changed = true
 	}
-	markField := func(f *types.Var) {
-		if !t.Fields[f] {
-			t.Fields[f] = true
-			changed = true
+	holds := func(v ssa.Value, why string) {
+		if v == nil || t.Holds[v] {
+			return
+		}
+		t.Holds[v] = true
+		if _, ok := t.Why[v]; !ok {
+			t.Why[v] = why
+		}
+		changed = true
+	}
+	both := func(dst, src ssa.Value, why string) { // dst aliases src
+		if t.Is[src] {
+			is(dst, why)
+		}
+		if t.Holds[src] {
+			holds(dst, why)
 		}
 	}
-	// returned-value taint per function and result index
-	retTaint := map[*ssa.Function]map[int]bool{}
-	for iter := 0; changed && iter < 50; iter++ {
+	elem := func(dst, container ssa.Value, why string) { // dst is an element of container
+		if t.Holds[container] {
+			is(dst, why)
+		}
+	}
+	type retKey struct {
+		fn  *ssa.Function
+		idx int
+	}
+	retIs, retHolds := map[retKey]bool{}, map[retKey]bool{}
+	for iter := 0; changed && iter < 60; iter++ {
 		changed = false
 		for _, fn := range scope {
 			for _, b := range fn.Blocks {
 				for _, in := range b.Instrs {
 					if v, ok := in.(ssa.Value); ok && isSource(v) {
-						mark(v, "source")
+						is(v, "source")
+						switch v.Type().Underlying().(type) {
+						case *types.Map, *types.Slice:
+							holds(v, "source") // a source container: its elements belong to the tagged object too
+						}
 					}
 					switch x := in.(type) {
 					case *ssa.Phi:
 						for _, e := range x.Edges {
-							if t.Vals[e] {
-								mark(x, "phi")
-							}
+							both(x, e, "phi")
 						}
 					case *ssa.ChangeType:
-						if t.Vals[x.X] {
-							mark(x, "conv")
-						}
+						both(x, x.X, "conversion")
 					case *ssa.MakeInterface:
-						if t.Vals[x.X] {
-							mark(x, "iface")
-						}
+						both(x, x.X, "interface")
 					case *ssa.ChangeInterface:
-						if t.Vals[x.X] {
-							mark(x, "iface")
-						}
+						both(x, x.X, "interface")
 					case *ssa.TypeAssert:
-						if t.Vals[x.X] {
-							mark(x, "assert")
-						}
+						both(x, x.X, "assertion")
 					case *ssa.Slice:
-						if t.Vals[x.X] {
-							mark(x, "slice")
-						}
+						both(x, x.X, "reslice")
 					case *ssa.Extract:
 						switch tup := x.Tuple.(type) {
 						case *ssa.Call:
-							if isSource(x) {
-								mark(x, "source")
-							}
-							if callee := tup.Call.StaticCallee(); callee != nil && retTaint[callee][x.Index] {
-								mark(x, "returned by "+fnName(callee))
+							if callee := tup.Call.StaticCallee(); callee != nil {
+								if retIs[retKey{callee, x.Index}] {
+									is(x, "returned by "+fnName(callee))
+								}
+								if retHolds[retKey{callee, x.Index}] {
+									holds(x, "returned by "+fnName(callee))
+								}
 							}
 						case *ssa.Lookup:
-							if x.Index == 0 && t.Vals[tup.X] {
-								mark(x, "element")
+							if x.Index == 0 {
+								elem(x, tup.X, "map element")
 							}
 						case *ssa.Next:
-							if rg, ok := tup.Iter.(*ssa.Range); ok && t.Vals[rg.X] && x.Index > 0 {
-								mark(x, "range element")
+							if rg, ok := tup.Iter.(*ssa.Range); ok && x.Index > 0 {
+								elem(x, rg.X, "range element")
 							}
 						case *ssa.TypeAssert:
-							if x.Index == 0 && t.Vals[tup.X] {
-								mark(x, "assert")
+							if x.Index == 0 {
+								both(x, tup.X, "assertion")
 							}
 						}
 					case *ssa.Lookup:
-						if !x.CommaOk && t.Vals[x.X] {
-							mark(x, "element")
+						if !x.CommaOk {
+							elem(x, x.X, "map element")
 						}
 					case *ssa.Index:
-						if t.Vals[x.X] {
-							mark(x, "element")
-						}
-					case *ssa.IndexAddr:
-						if t.Vals[x.X] {
-							mark(x, "element address")
-						}
+						elem(x, x.X, "element")
 					case *ssa.Field:
-						if t.Fields[fieldOfField(x)] || t.Vals[x.X] && refLike(x.Type(), 0) && false {
-							mark(x, "field "+fieldOfField(x).Name())
+						f := fieldOfField(x)
+						if t.IsFields[f] {
+							is(x, "field "+f.Name())
 						}
-					case *ssa.FieldAddr:
-						if t.Fields[fieldOfAddr(x)] {
-							// the address denotes a location holding a tagged value: loads below
+						if t.HoldsFields[f] {
+							holds(x, "field "+f.Name())
 						}
 					case *ssa.UnOp:
 						if x.Op != token.MUL {
@@ -154,92 +171,114 @@ func (w *World) TaintFrom(scope []*ssa.Function, isSource func(ssa.Value) bool) 
 						}
 						switch a := x.X.(type) {
 						case *ssa.FieldAddr:
-							if t.Fields[fieldOfAddr(a)] {
-								mark(x, "load of field "+fieldOfAddr(a).Name())
+							f := fieldOfAddr(a)
+							if t.IsFields[f] {
+								is(x, "load of field "+f.Name())
+							}
+							if t.HoldsFields[f] {
+								holds(x, "load of field "+f.Name())
+							}
+							// a field read through a tagged pointer is part of the tagged object
+							if root := addrRoot(a); root != nil && t.Is[root] {
+								is(x, "field of tagged object")
 							}
 						case *ssa.IndexAddr:
-							if t.Vals[a.X] || t.Vals[a] {
-								mark(x, "load of element")
-							}
-						case *ssa.Alloc, *ssa.FreeVar, *ssa.Global:
-							if t.Vals[a] {
-								mark(x, "load of local")
-							}
+							elem(x, a.X, "element")
 						default:
-							if t.Vals[a] {
-								mark(x, "load")
+							// local cell / free variable / global cell
+							if t.Holds[a] {
+								is(x, "load of cell")
 							}
 						}
 					case *ssa.Store:
-						if !t.Vals[x.Val] {
-							break
-						}
 						switch a := x.Addr.(type) {
 						case *ssa.FieldAddr:
-							markField(fieldOfAddr(a))
-						case *ssa.IndexAddr:
-							// container now holds a tagged value
-							if !t.Vals[a.X] {
-								t.Vals[a.X] = true
-								t.Why[a.X] = "holds a tagged element"
+							f := fieldOfAddr(a)
+							if t.Is[x.Val] && !t.IsFields[f] {
+								t.IsFields[f] = true
 								changed = true
 							}
-							if al, ok := a.X.(*ssa.Alloc); ok {
-								_ = al
+							if t.Holds[x.Val] && !t.HoldsFields[f] {
+								t.HoldsFields[f] = true
+								changed = true
+							}
+						case *ssa.IndexAddr:
+							if t.Is[x.Val] {
+								holds(a.X, "element stored")
 							}
 						default:
-							if !t.Vals[a] {
-								t.Vals[a] = true
-								t.Why[a] = "cell holding a tagged value"
-								changed = true
+							// cell (Alloc, FreeVar, Global, pointer): the cell holds the value
+							if t.Is[x.Val] {
+								holds(a, "cell")
+							}
+							if t.Holds[x.Val] {
+								// a cell holding a container that holds: loads give Holds — approximate by Is→Holds chain
+								if !t.cellHolds[a] {
+									t.cellHolds[a] = true // loads of the cell are Holds
+									changed = true
+								}
 							}
 						}
 					case *ssa.MapUpdate:
-						if t.Vals[x.Value] && !t.Vals[x.Map] {
-							t.Vals[x.Map] = true
-							t.Why[x.Map] = "holds a tagged element"
-							changed = true
+						if t.Is[x.Value] {
+							holds(x.Map, "element stored")
 						}
 					case *ssa.MakeClosure:
 						if f, ok := x.Fn.(*ssa.Function); ok {
 							for i, bnd := range x.Bindings {
-								if t.Vals[bnd] && i < len(f.FreeVars) {
-									mark(f.FreeVars[i], "captured")
+								if i < len(f.FreeVars) {
+									both(f.FreeVars[i], bnd, "captured")
 								}
 							}
 						}
 					case *ssa.Return:
 						for i, rv := range x.Results {
-							if t.Vals[rv] {
-								if retTaint[fn] == nil {
-									retTaint[fn] = map[int]bool{}
-								}
-								if !retTaint[fn][i] {
-									retTaint[fn][i] = true
-									changed = true
-								}
+							if t.Is[rv] && !retIs[retKey{fn, i}] {
+								retIs[retKey{fn, i}] = true
+								changed = true
+							}
+							if t.Holds[rv] && !retHolds[retKey{fn, i}] {
+								retHolds[retKey{fn, i}] = true
+								changed = true
 							}
 						}
 					}
+					// loads of cells that hold a Holds-container
+					if u, ok := in.(*ssa.UnOp); ok && u.Op == token.MUL && t.cellHolds[u.X] {
+						holds(u, "load of cell")
+					}
 					if ci, ok := in.(ssa.CallInstruction); ok {
 						cc := ci.Common()
-						if b, isB := cc.Value.(*ssa.Builtin); isB && b.Name() == "append" {
-							if v := ci.Value(); v != nil {
-								for _, a := range cc.Args {
-									if t.Vals[a] {
-										mark(v, "append")
+						if bi, isB := cc.Value.(*ssa.Builtin); isB && bi.Name() == "append" {
+							if v := ci.Value(); v != nil && len(cc.Args) == 2 {
+								both(v, cc.Args[0], "append (same backing array when capacity allows)")
+								// appended elements
+								if c, isCall := in.(*ssa.Call); isCall {
+									_, elems, spread, _ := appendParts(c)
+									for _, e := range elems {
+										if e != nil && t.Is[e] {
+											holds(v, "element appended")
+										}
+									}
+									if spread != nil && t.Holds[spread] {
+										holds(v, "elements appended")
 									}
 								}
 							}
 						}
 						if callee := cc.StaticCallee(); callee != nil && t.scope[callee] {
 							for i, a := range cc.Args {
-								if t.Vals[a] && i < len(callee.Params) {
-									mark(callee.Params[i], "argument of "+fnName(callee))
+								if i < len(callee.Params) {
+									both(callee.Params[i], a, "argument of "+fnName(callee))
 								}
 							}
-							if v := ci.Value(); v != nil && retTaint[callee][0] && callee.Signature.Results().Len() == 1 {
-								mark(v, "returned by "+fnName(callee))
+							if v := ci.Value(); v != nil && callee.Signature.Results().Len() == 1 {
+								if retIs[retKey{callee, 0}] {
+									is(v, "returned by "+fnName(callee))
+								}
+								if retHolds[retKey{callee, 0}] {
+									holds(v, "returned by "+fnName(callee))
+								}
 							}
 						}
 					}
@@ -250,7 +289,21 @@ func (w *World) TaintFrom(scope []*ssa.Function, isSource func(ssa.Value) bool) 
 	return t
 }
 
-// MutationsOf lists instructions in scope that modify a tagged container in place.
+// addrRoot follows FieldAddr/IndexAddr chains to the base pointer.
+func addrRoot(v ssa.Value) ssa.Value {
+	for i := 0; i < 16; i++ {
+		switch a := v.(type) {
+		case *ssa.FieldAddr:
+			v = a.X
+		case *ssa.IndexAddr:
+			v = a.X
+		default:
+			return v
+		}
+	}
+	return v
+}
+
 type Mutation struct {
 	Fn    *ssa.Function
 	Instr ssa.Instruction
@@ -258,26 +311,24 @@ type Mutation struct {
 	On    ssa.Value
 }
 
+// Mutations lists instructions in scope that modify a tagged object in place.
 func (t *Taint) Mutations(scope []*ssa.Function, includeAppend bool) []Mutation {
 	var out []Mutation
 	for _, fn := range scope {
 		instrsOf(fn, func(in ssa.Instruction) {
 			switch x := in.(type) {
 			case *ssa.MapUpdate:
-				if t.Vals[x.Map] && t.Why[x.Map] != "holds a tagged element" {
+				if t.Is[x.Map] {
 					out = append(out, Mutation{fn, in, "map insert", x.Map})
 				}
 			case *ssa.Store:
 				switch a := x.Addr.(type) {
 				case *ssa.IndexAddr:
-					if t.Vals[a.X] && t.Why[a.X] != "holds a tagged element" {
-						if al, isAl := a.X.(*ssa.Alloc); isAl && (al.Comment == "varargs" || al.Comment == "slicelit") {
-							return
-						}
+					if t.Is[a.X] {
 						out = append(out, Mutation{fn, in, "element store", a.X})
 					}
 				case *ssa.FieldAddr:
-					if t.Vals[a.X] {
+					if t.Is[a.X] {
 						out = append(out, Mutation{fn, in, "field store through tagged pointer", a.X})
 					}
 				}
@@ -285,19 +336,19 @@ func (t *Taint) Mutations(scope []*ssa.Function, includeAppend bool) []Mutation 
 				if b, ok := x.Call.Value.(*ssa.Builtin); ok {
 					switch b.Name() {
 					case "delete":
-						if t.Vals[x.Call.Args[0]] && t.Why[x.Call.Args[0]] != "holds a tagged element" {
+						if t.Is[x.Call.Args[0]] {
 							out = append(out, Mutation{fn, in, "map delete", x.Call.Args[0]})
 						}
 					case "append":
-						if includeAppend && t.Vals[x.Call.Args[0]] && t.Why[x.Call.Args[0]] != "holds a tagged element" {
-							out = append(out, Mutation{fn, in, "append (may write in place)", x.Call.Args[0]})
+						if includeAppend && t.Is[x.Call.Args[0]] {
+							out = append(out, Mutation{fn, in, "append in place", x.Call.Args[0]})
 						}
 					case "copy":
-						if t.Vals[x.Call.Args[0]] && t.Why[x.Call.Args[0]] != "holds a tagged element" {
+						if t.Is[x.Call.Args[0]] {
 							out = append(out, Mutation{fn, in, "copy into", x.Call.Args[0]})
 						}
 					case "clear":
-						if t.Vals[x.Call.Args[0]] {
+						if t.Is[x.Call.Args[0]] {
 							out = append(out, Mutation{fn, in, "clear", x.Call.Args[0]})
 						}
 					}
